@@ -355,6 +355,7 @@ func main() {
 	engineDir := flag.String("engine", "/verif/engine", "engine module directory")
 	harness := flag.String("harness", "", "comma separated harness directories to mount at <repo>/internal/zzverif/<base>")
 	xsyncSrc := flag.String("xsync", "", "module cache directory of golang.org/x/sync to copy and rewrite")
+	plain := flag.String("plain", "", "comma separated directories to mount (like -harness) for an UNINSTRUMENTED build: writes overlay_plain.json and alt_plain.mod")
 	flag.Parse()
 	if *out == "" {
 		fatal([]string{"-out required"})
@@ -403,6 +404,28 @@ func main() {
 	os.WriteFile(filepath.Join(*out, "alt.mod"), []byte(alt), 0o644)
 	if sum, err := os.ReadFile(filepath.Join(*repo, "go.sum")); err == nil {
 		os.WriteFile(filepath.Join(*out, "alt.sum"), sum, 0o644)
+	}
+	if *plain != "" {
+		po := map[string]string{}
+		for _, h := range strings.Split(*plain, ",") {
+			ents, err := os.ReadDir(h)
+			if err != nil {
+				fatal([]string{err.Error()})
+			}
+			for _, e := range ents {
+				if e.IsDir() || !strings.HasSuffix(e.Name(), ".go") {
+					continue
+				}
+				po[filepath.Join(*repo, "internal", "zzverif", filepath.Base(h), e.Name())] = filepath.Join(h, e.Name())
+			}
+		}
+		pb, _ := json.MarshalIndent(map[string]any{"Replace": po}, "", " ")
+		os.WriteFile(filepath.Join(*out, "overlay_plain.json"), pb, 0o644)
+		pm := string(mod) + "\nrequire " + engine + " v0.0.0\nreplace " + engine + " => " + *engineDir + "\n"
+		os.WriteFile(filepath.Join(*out, "alt_plain.mod"), []byte(pm), 0o644)
+		if sum, err := os.ReadFile(filepath.Join(*repo, "go.sum")); err == nil {
+			os.WriteFile(filepath.Join(*out, "alt_plain.sum"), sum, 0o644)
+		}
 	}
 	b, _ := json.MarshalIndent(map[string]any{"Replace": overlay}, "", " ")
 	os.WriteFile(filepath.Join(*out, "overlay.json"), b, 0o644)
